@@ -6,6 +6,7 @@ import (
 	"fmt"
 	"hash/fnv"
 	"math/rand"
+	"os"
 	"regexp"
 	"runtime/debug"
 	"sort"
@@ -109,7 +110,7 @@ func (c *Ctx) Violate(sig string, format string, a ...interface{}) {
 		return
 	}
 	d := fmt.Sprintf(format, a...)
-	if len(d) > 4000 {
+	if len(d) > 4000 && os.Getenv("VERIF_FULL") == "" {
 		d = d[:4000] + "...(truncated)"
 	}
 	c.R.Violations = append(c.R.Violations, Violation{Sig: sig, Detail: d})
@@ -154,7 +155,7 @@ type Batcher interface{ Batch(tier string) int }
 
 var registry = map[string]Property{}
 
-func Register(p Property) { registry[p.ID()] = p }
+func Register(p Property)       { registry[p.ID()] = p }
 func Lookup(id string) Property { return registry[id] }
 func IDs() []string {
 	var ids []string
